@@ -656,3 +656,84 @@ Proof.
     assert (w mod 2 < 2) by (apply N.mod_lt; lia). assert ((w - 1) mod 2 < 2) by (apply N.mod_lt; lia).
     destruct (N.eqb_spec (w mod 2) 0), (N.eqb_spec ((w - 1) mod 2) 0); lia.
 Qed.
+
+Corollary sl_cells_disjoint_pow2 size k ptr :
+  1 <= size -> ptr mod 2 ^ k = 0 ->
+  let al := 2 ^ k in
+  let a0 := data_cell size al ptr 0 in
+  let a1 := data_cell size al ptr 1 in
+  a0 + size <= a1 /\ ptr <= a0 /\ a1 + size <= ptr + reserved size al /\ a0 mod al = 0 /\ a1 mod al = 0.
+Proof.
+  intros Hs Hp. cbv zeta.
+  assert (Ha : 2 ^ k <> 0) by (apply N.pow_nonzero; lia).
+  destruct (sl_cells_disjoint size (2 ^ k) ptr Hs Ha Hp) as (A & B & C & D & E & F & _).
+  repeat split; auto. rewrite A. lia.
+Qed.
+
+(* ---------------- concrete executions (witnesses, non-vacuity) ---------------- *)
+(* the writer laps the reader in the middle of a 2-byte copy: the reader's buffer holds a
+   mixture of two values, the validation fails, the retry returns a whole value *)
+Definition lap_progs (t : nat) : list sop :=
+  match t with
+  | O => [OAcq; OStore [1; 1]; OStore [2; 2]]
+  | S O => [OLoad]
+  | _ => []
+  end.
+Definition lap_sched_a : list nat := [1;1; 0;0;0;0;0;0; 0;0;0;0; 1]%nat.
+Definition lap_sched_b : list nat := lap_sched_a ++ [1;1;1;1;0]%nat.
+
+Lemma lap_witness :
+  let ca := fst (run fstep lap_sched_a (init 2 [7; 7] lap_progs)) in
+  let cb := fst (run fstep lap_sched_b (init 2 [7; 7] lap_progs)) in
+  reachable fstep (init 2 [7; 7] lap_progs) ca /\ reachable fstep (init 2 [7; 7] lap_progs) cb /\
+  at_pc (snd ca 1%nat) = RCas 1 1 [7; 2] /\ wc (fst ca) = 2 /\
+  loads (snd cb 1%nat) = [(1, 2, [1; 1])] /\ written (fst cb) = [[7; 7]; [1; 1]; [2; 2]] /\
+  lenN (written (fst cb)) < W64.
+Proof.
+  cbv zeta. split; [exists lap_sched_a; reflexivity|]. split; [exists lap_sched_b; reflexivity|].
+  vm_compute. repeat split; reflexivity.
+Qed.
+
+(* the full "no racy access" clause: a byte read never targets the cell a byte write targets *)
+Definition sl_no_racy_read_full : Prop :=
+  forall n v0 progs g ls t t' m v w i w0 w' buf j,
+    reachable fstep (init n v0 progs) (g, ls) -> lenN (written g) < W64 ->
+    at_pc (ls t) = WByte m v w i -> at_pc (ls t') = RByte w0 w' buf j ->
+    w mod 2 <> (w' - 1) mod 2.
+
+Definition race_progs (t : nat) : list sop :=
+  match t with
+  | O => [OAcq; OStore [1]; OStore [2]]
+  | S O => [OLoad]
+  | _ => []
+  end.
+Definition race_sched : list nat := [1; 0;0;0;0;0; 0;0]%nat.
+
+Lemma sl_no_racy_read_refuted : ~ sl_no_racy_read_full.
+Proof.
+  intros H.
+  set (c := fst (run fstep race_sched (init 1 [7] race_progs))).
+  assert (Hr : reachable fstep (init 1 [7] race_progs) (fst c, snd c)) by (exists race_sched; reflexivity).
+  apply (H 1%nat [7] race_progs (fst c) (snd c) 0%nat 1%nat MStore [2] 2 0%nat 1 1 [] 0%nat Hr);
+    vm_compute; reflexivity.
+Qed.
+
+(* hand-over of the producer handle *)
+Definition ho_progs (t : nat) : list sop :=
+  match t with
+  | O => [OAcq; OStore [1]; ORel]
+  | S O => [OAcq; OAcq; OStore [2]]
+  | _ => []
+  end.
+Definition ho_sched : list nat := [0; 1; 0;0;0;0; 0; 1; 1;1;1;1]%nat.
+
+Lemma ho_witness :
+  let c := fst (run fstep ho_sched (init 1 [7] ho_progs)) in
+  reachable fstep (init 1 [7] ho_progs) c /\
+  holdsP (snd c 0%nat) = false /\ holdsP (snd c 1%nat) = true /\ written (fst c) = [[7]; [1]; [2]] /\
+  snd (run fstep [0; 1]%nat (init 1 [7] ho_progs)) =
+    [(0%nat, EAcc 1 B_HASP 0 KCas Acquire Relaxed 1 0 true); (0%nat, ERet 1);
+     (1%nat, EAcc 1 B_HASP 0 KCas Acquire Relaxed 0 0 false); (1%nat, ERet 0)].
+Proof.
+  cbv zeta. split; [exists ho_sched; reflexivity|]. vm_compute. repeat split; reflexivity.
+Qed.
